@@ -15,3 +15,4 @@ open CaddyModel.C18
 #print axioms vars_regexp_old_code_rescans
 #print axioms unclosed_limit_matches_source
 #print axioms outside_preserved_mod_escape
+#print axioms cost_twin_follows_loop
